@@ -12,6 +12,30 @@ CHECKS = {
         'PolarGrid is compared with the extracted model on whole random grids (K-grid). Axiom-free.',
    note='Trusted: Coq kernel, translator T1, extraction (ExtrOcamlBasic), the harness; premise nr*ntheta < 2^31; std::lower_bound/std::div modelled.',
    design='5/C17'),
+ 'C14': dict(
+   technique='Coq proof (induction over the dimension: three-sweep LDL^T = elimination law-free; A x = b over R; dominance => positive pivots; bit-identical repeated solves) + exact-rational correspondence of the real solver',
+   text='For every dimension: the in-place LDL^T sweeps equal the recursive elimination operation for operation (any arithmetic), the '
+        'elimination solves A x = b exactly when no pivot vanishes, strict dominance makes every pivot positive, and repeated solves '
+        'are identical. PARTIAL: cyclic Sherman-Morrison correctness and floating-point backward stability are measured by the '
+        'exact-rational correspondence (residual of the real result evaluated exactly), not proved.',
+   note='Trusted: Coq kernel; R axioms sig_forall_dec, functional_extensionality_dep; hand model TridiagDefs.v tied by K-solve; extraction with ExtrOcamlBasic+ExtrOcamlZBigInt; parametricity between the R and Q instances.',
+   design='5/C14'),
+ 'C15': dict(
+   technique='Coq proof over translator-generated special-member transfer tables (completeness by computation, observational equality by induction) + lock-step operation histories on the real classes',
+   text='T5 regenerates from the headers which member each of the 24 special member functions transfers; Coq proves that a complete '
+        'table makes the target equal to the source for every source state and observation (any scalar type), and checks by '
+        'computation that the current tables are complete and that copy-assignment re-allocation is guarded by every size '
+        'variable. Random construct/solve/copy/move histories run on the real SymmetricTridiagonalSolver in lock step with the model.',
+   note='Trusted: Coq kernel (axiom-free), translator T5, class size invariants written by hand in ObjectsDefs.v, unique_ptr/std::vector value semantics, extraction.',
+   design='5/C15'),
+ 'C16': dict(
+   technique='Coq proof of the finite-map semantics (storage order, stored zeros) + exact-rational correspondence of factorizeWithHashing/solveInPlace',
+   text='PARTIAL. Proved for all rows: the hashed row container is a finite map (last stored value wins, absent = 0), so the matrix '
+        'does not depend on the order of entries within a row nor on explicitly stored zeros. LU correctness itself is not a theorem: '
+        'the model of the hashed elimination is executed in exact rationals against the real solver on random patterns (unsorted, '
+        'stored zeros, both CSR constructors, several right-hand sides) and the residual of the real result is evaluated exactly.',
+   note='Trusted: Coq kernel (axiom-free), hand model SparseLUDefs.v, unordered_map modelled as finite map, extraction (ExtrOcamlBasic+ExtrOcamlZBigInt). Known finding F4 listed in known_findings.txt.',
+   design='5/C16'),
 }
 NA_REASON = 'check not built yet in this revision of /verif (design in DESIGN.md section 5); not claimed'
 
